@@ -136,12 +136,16 @@ func (j *JobResult) counterexample(w *Worker, label string, st *State, m *Model,
 	}
 }
 
+// labelTerminates: the obligation "every path ends within the per-path step bound"; a counterexample is
+// confirmed only by a native run that does not end within nonTerminationTimeout.
+const labelTerminates = "terminates-within-step-bound"
+
 // runJob executes one (harness, shard).
 func (e *Engine) runJob(h *HarnessSpec, shard, nshards int, solverCmd []string, timeoutMs int, trace bool) (res *JobResult) {
 	res = &JobResult{Harness: h.Name, Shard: shard, Status: "ok"}
 	t0 := time.Now()
 	w := &Worker{eng: e, job: res, shard: shard, nshards: nshards, maxSteps: h.Steps,
-		deadline: time.Now().Add(time.Duration(h.Timeout) * time.Second), maxDepth: 400, fnSeen: map[*ssa.Function]int{}, noMerge: h.NoMerge, mergeConcrete: h.MergeConcrete, trace: trace}
+		deadline: time.Now().Add(time.Duration(h.Timeout) * time.Second), maxDepth: 400, pathSteps: h.PathSteps, fnSeen: map[*ssa.Function]int{}, noMerge: h.NoMerge, mergeConcrete: h.MergeConcrete, trace: trace}
 	w.solver = newSolver(solverCmd, timeoutMs)
 	w.scoped = map[string]*ssa.Function{}
 	for _, m := range e.scopedModels[h.Pkg] {
@@ -196,6 +200,12 @@ func (e *Engine) runJob(h *HarnessSpec, shard, nshards int, solverCmd []string, 
 				res.Status, res.Msg = "unsupported", x.msg
 			case BoundExceeded:
 				res.Status, res.Msg = "bound", x.what
+			case PathBound:
+				res.Status, res.Msg = "bound", fmt.Sprintf("one path ran more than %d steps", w.pathSteps)
+				if r, m := w.solver.check(x.st.pc, true); r == Sat {
+					res.Obligations++
+					res.counterexample(w, labelTerminates, x.st, m, w.knownHits(x.st, labelTerminates))
+				}
 			case engineErr:
 				res.Status, res.Msg = "error", string(x)
 			default:
